@@ -70,6 +70,8 @@ func writerTrace(w wl.Workload, reads string) (*wl.Trace, []byte) {
 		tr.Add(wl.Ev{"ev": "Scan", "msgs": ir.Msgs, "mds": ir.Mds, "end": ir.End, "why": errStr(ir.Err)})
 		st := run.RetainCheck(b)
 		tr.Add(wl.Ev{"ev": "Retain", "n": st.N, "changed": st.Changed, "end": st.End})
+		rg := run.RangeCount(b)
+		tr.Add(wl.Ev{"ev": "Retain", "via": "range", "n": rg.N, "changed": rg.Changed, "end": rg.End})
 	}
 	tr.Add(wl.Ev{"ev": "End"})
 	return tr, b
